@@ -1,11 +1,1030 @@
-//! C17 — not built yet (see DESIGN.md §5 C17).
+//! C17 — the disk-backed B+ tree behaves as an ordered multimap and its persisted pages stay
+//! well-formed (DESIGN §5 C17, engine E3).
+//!
+//! Explicit-state search over all sequences of insert / delete / delete_specific over a small key
+//! domain, from the empty tree, from insert-built trees and from bulk-loaded trees; in every reached
+//! state the whole query battery (lookup of every key, multi_lookup of a menu of key sets, range_scan
+//! for every pair of bounds x 4 inclusivity combinations) is compared with a reference multimap, the
+//! persisted pages are decoded with the crate's own readers and checked, and `BTreeIndex::load` of the
+//! same pages has to answer like the live tree. lookup / multi_lookup / range_scan are therefore
+//! "interleaved" at every position of every sequence; that they do not change the state is checked.
 
-pub fn run(_tier: &str) -> i32 {
-    eprintln!("MACHINERY-ERROR C17 is not built yet");
-    2
+use std::collections::{BTreeMap, HashSet};
+use std::time::Instant;
+
+use serde_json::{json, Value};
+use vibesql_storage::btree::Key;
+use vibesql_types::{DataType, SqlValue};
+
+use vcore::report::Report;
+use vcore::util::{hash128, par_map};
+
+use crate::bt::*;
+
+// ------------------------------------------------------------------------------------------------
+// domains
+
+fn vc(s: &str) -> SqlValue {
+    SqlValue::Varchar(s.to_string())
 }
 
-pub fn replay(_case: &serde_json::Value) -> i32 {
-    eprintln!("MACHINERY-ERROR C17 is not built yet");
-    2
+fn long_varchar() -> DataType {
+    DataType::Varchar { max_length: Some(1000) }
+}
+
+/// single VARCHAR(1000) key (degree 5): `n` keys "k01".."kNN", optionally NULL and '' as further keys
+fn dom_str(name: &'static str, n: usize, with_null: bool, max_len: usize) -> Result<Domain, String> {
+    let mut keys: Vec<Key> = (1..=n).map(|i| vec![vc(&format!("k{:02}", i))]).collect();
+    if with_null {
+        keys.push(vec![SqlValue::Null]);
+        keys.push(vec![vc("")]);
+    }
+    // probe-only keys: below everything, between, above everything
+    let probes: Vec<Key> = vec![vec![vc("a")], vec![vc("k015")], vec![vc("z")]];
+    Domain::new(name, vec![DataType::Varchar { max_length: Some(max_len) }], keys, &probes)
+}
+
+/// composite (VARCHAR(1000), INTEGER) key with NULL components
+fn dom_composite(name: &'static str) -> Result<Domain, String> {
+    let i = |x: i64| SqlValue::Integer(x);
+    let keys: Vec<Key> = vec![
+        vec![SqlValue::Null, SqlValue::Null],
+        vec![SqlValue::Null, i(1)],
+        vec![vc("a"), SqlValue::Null],
+        vec![vc("a"), i(1)],
+        vec![vc("a"), i(2)],
+        vec![vc("ab"), i(0)],
+        vec![vc("b"), SqlValue::Null],
+        vec![vc("b"), i(1)],
+        vec![vc("b"), i(10)],
+        vec![vc("c"), i(-5)],
+    ];
+    let probes: Vec<Key> = vec![vec![vc("a"), i(0)], vec![vc("bb"), i(3)]];
+    Domain::new(name, vec![long_varchar(), DataType::Integer], keys, &probes)
+}
+
+// ------------------------------------------------------------------------------------------------
+// families
+
+#[derive(Clone, Debug)]
+pub enum Start {
+    Empty,
+    /// operations executed on the empty tree (every intermediate state is checked as well)
+    Built(Vec<Op>),
+    /// `BTreeIndex::bulk_load` of sorted (key, row id) entries
+    Bulk(Vec<(u16, u16)>),
+}
+
+impl Start {
+    fn kind(&self) -> &'static str {
+        match self {
+            Start::Empty => "empty",
+            Start::Built(_) => "built",
+            Start::Bulk(_) => "bulk_load",
+        }
+    }
+    fn to_json(&self) -> Value {
+        match self {
+            Start::Empty => json!({"kind": "empty"}),
+            Start::Built(ops) => json!({"kind": "built", "ops": ops.iter().map(|o| o.to_json()).collect::<Vec<_>>()}),
+            Start::Bulk(e) => json!({"kind": "bulk_load", "entries": e}),
+        }
+    }
+    fn from_json(v: &Value) -> Option<Start> {
+        match v["kind"].as_str()? {
+            "empty" => Some(Start::Empty),
+            "built" => Some(Start::Built(v["ops"].as_array()?.iter().filter_map(Op::from_json).collect())),
+            "bulk_load" => Some(Start::Bulk(v["entries"].as_array()?.iter().filter_map(|e| Some((e.get(0)?.as_u64()? as u16, e.get(1)?.as_u64()? as u16))).collect())),
+            _ => None,
+        }
+    }
+}
+
+pub struct Family {
+    pub name: &'static str,
+    pub dom: Domain,
+    pub battery: Battery,
+    /// battery for the re-loaded tree when its root / height / degree equal the live tree's
+    pub reduced: Battery,
+    pub rids: Vec<u16>,
+    /// a key never holds more than `cap` row ids (insert is not enabled beyond; bounds the space)
+    pub cap: usize,
+    pub delspec: bool,
+    /// merge states that differ only by a renaming of page ids / the content of unreachable pages
+    /// (assumes the tree code treats page ids as opaque names; the other families do not assume it)
+    pub canonical: bool,
+    pub starts: Vec<Start>,
+    pub depth: usize,
+    pub max_secs: f64,
+}
+
+fn asc(d: &Domain, n: usize) -> Vec<Op> {
+    d.op_keys.iter().take(n).map(|k| Op::Ins(*k as u16, 0)).collect()
+}
+fn desc(d: &Domain, n: usize) -> Vec<Op> {
+    d.op_keys.iter().take(n).rev().map(|k| Op::Ins(*k as u16, 0)).collect()
+}
+/// outside-in order: first, last, second, last but one, ...
+fn zigzag(d: &Domain, n: usize) -> Vec<Op> {
+    let ks: Vec<usize> = d.op_keys.iter().take(n).copied().collect();
+    let mut out = vec![];
+    let (mut i, mut j) = (0usize, ks.len());
+    while i < j {
+        out.push(Op::Ins(ks[i] as u16, 0));
+        i += 1;
+        if i < j {
+            j -= 1;
+            out.push(Op::Ins(ks[j] as u16, 0));
+        }
+    }
+    out
+}
+
+fn bulk_prefix(d: &Domain, n: usize, dups: bool) -> Start {
+    let mut e = vec![];
+    for (p, k) in d.op_keys.iter().take(n).enumerate() {
+        e.push((*k as u16, 0u16));
+        if dups && p % 2 == 0 {
+            e.push((*k as u16, 1u16));
+            if p % 4 == 0 {
+                e.push((*k as u16, 0u16));
+            }
+        }
+    }
+    Start::Bulk(e)
+}
+
+/// every subset of the first `n` op keys, bulk-loaded with one row id per key
+fn bulk_subsets(d: &Domain, n: usize) -> Vec<Start> {
+    let ks: Vec<usize> = d.op_keys.iter().take(n).copied().collect();
+    (0u32..(1u32 << ks.len())).map(|mask| Start::Bulk(ks.iter().enumerate().filter(|(i, _)| mask >> i & 1 == 1).map(|(_, k)| (*k as u16, 0u16)).collect())).collect()
+}
+
+pub fn families(thorough: bool) -> Result<Vec<Family>, String> {
+    let mut f = vec![];
+    // A: closure — one row id per key: *every* sequence (any length) over 8 keys, until no new state appears
+    {
+        let d = dom_str("varchar1000", 8, false, 1000)?;
+        let b = Battery::full(&d);
+        f.push(Family { name: "closure8", reduced: b.reduced(&d), battery: b, rids: vec![0], cap: 1, delspec: true, canonical: true, starts: vec![Start::Empty], depth: 200, max_secs: if thorough { 120.0 } else { 60.0 }, dom: d });
+    }
+    if thorough {
+        // the same closure over 11 keys: height 3, internal splits / borrows / merges from the empty tree
+        let d = dom_str("varchar1000", 11, false, 1000)?;
+        let b = Battery::full(&d);
+        f.push(Family { name: "closure11", reduced: b.reduced(&d), battery: b, rids: vec![0], cap: 1, delspec: false, canonical: true, starts: vec![Start::Empty], depth: 200, max_secs: 400.0, dom: d });
+    }
+    if thorough {
+        // 13 keys (as far as it gets within the time cap; the evidence says whether the fixpoint was reached)
+        let d = dom_str("varchar1000", 13, false, 1000)?;
+        let b = Battery::full(&d);
+        f.push(Family { name: "closure13", reduced: b.reduced(&d), battery: b, rids: vec![0], cap: 1, delspec: false, canonical: true, starts: vec![Start::Empty], depth: 200, max_secs: 500.0, dom: d });
+        // duplicates: 5 keys, row ids {0,1}, at most two per key (the same row id twice included): closure
+        let d = dom_str("varchar1000", 5, false, 1000)?;
+        let b = Battery::full(&d);
+        f.push(Family { name: "closure_duplicates5", reduced: b.reduced(&d), battery: b, rids: vec![0, 1], cap: 2, delspec: true, canonical: true, starts: vec![Start::Empty], depth: 200, max_secs: 300.0, dom: d });
+    }
+    // A': more keys (height 3 reachable from the empty tree), depth-bounded
+    {
+        let n = if thorough { 13 } else { 11 };
+        let d = dom_str("varchar1000", n, false, 1000)?;
+        let b = Battery::full(&d);
+        f.push(Family { name: "shapes", reduced: b.reduced(&d), battery: b, rids: vec![0], cap: 1, delspec: false, canonical: false, starts: vec![Start::Empty], depth: if thorough { 9 } else { 6 }, max_secs: if thorough { 200.0 } else { 60.0 }, dom: d });
+    }
+    // B: multimap — several row ids per key, duplicates of the same (key,row id), from empty and from
+    // insert-built trees of height 2 and 3
+    {
+        let d = dom_str("varchar1000", 12, false, 1000)?;
+        let b = Battery::full(&d);
+        let starts = vec![Start::Empty, Start::Built(asc(&d, 5)), Start::Built(desc(&d, 7)), Start::Built(zigzag(&d, 9)), Start::Built(asc(&d, 11)), Start::Built(desc(&d, 12)), Start::Built(zigzag(&d, 12))];
+        f.push(Family { name: "multimap", reduced: b.reduced(&d), battery: b, rids: if thorough { vec![0, 1, 2] } else { vec![0, 1] }, cap: if thorough { 3 } else { 2 }, delspec: true, canonical: false, starts, depth: if thorough { 3 } else { 2 }, max_secs: if thorough { 250.0 } else { 60.0 }, dom: d });
+    }
+    // C: bulk-loaded start states: every number of distinct keys 0..=16 with and without duplicate keys,
+    // every subset of the first 8 (quick: 5) keys
+    {
+        let d = dom_str("varchar1000", 16, false, 1000)?;
+        let b = Battery::full(&d);
+        let mut starts = vec![];
+        for m in 0..=16usize {
+            starts.push(bulk_prefix(&d, m, false));
+            if m > 0 {
+                starts.push(bulk_prefix(&d, m, true));
+            }
+        }
+        starts.extend(bulk_subsets(&d, if thorough { 8 } else { 5 }));
+        f.push(Family { name: "bulk", reduced: b.reduced(&d), battery: b, rids: vec![0, 1], cap: 3, delspec: true, canonical: false, starts, depth: if thorough { 2 } else { 1 }, max_secs: if thorough { 200.0 } else { 60.0 }, dom: d });
+    }
+    // D: composite keys with NULL components
+    {
+        let d = dom_composite("varchar1000_int")?;
+        let b = Battery::full(&d);
+        let starts = vec![Start::Empty, Start::Built(asc(&d, 10)), Start::Built(desc(&d, 8)), bulk_prefix(&d, 10, true), bulk_prefix(&d, 7, false)];
+        f.push(Family { name: "composite_null", reduced: b.reduced(&d), battery: b, rids: vec![0, 1], cap: 2, delspec: true, canonical: false, starts, depth: if thorough { 3 } else { 2 }, max_secs: if thorough { 120.0 } else { 60.0 }, dom: d });
+    }
+    if thorough {
+        // single-column NULL and '' keys
+        let d = dom_str("varchar1000_null", 8, true, 1000)?;
+        let b = Battery::full(&d);
+        f.push(Family { name: "null_and_empty_string", reduced: b.reduced(&d), battery: b, rids: vec![0], cap: 1, delspec: false, canonical: false, starts: vec![Start::Empty, bulk_prefix(&d, 10, false)], depth: 7, max_secs: 90.0, dom: d });
+        // other small degrees: VARCHAR(150) -> degree 6, VARCHAR(135) -> degree 7
+        for (nm, len) in [("varchar150", 150usize), ("varchar135", 135usize)] {
+            let d = dom_str(nm, 20, false, len)?;
+            let b = Battery::sparse(&d, &[0, 1, 2, 5, 8, 9, 12, 15, 17, 18, 21, 22]);
+            let starts = vec![Start::Empty, Start::Built(asc(&d, 20)), Start::Built(desc(&d, 20)), Start::Built(zigzag(&d, 20)), bulk_prefix(&d, 20, false), bulk_prefix(&d, 17, true)];
+            f.push(Family { name: if len == 150 { "degree6" } else { "degree7" }, reduced: b.reduced(&d), battery: b, rids: vec![0], cap: 1, delspec: false, canonical: false, starts, depth: 3, max_secs: 90.0, dom: d });
+        }
+    }
+    Ok(f)
+}
+
+// ------------------------------------------------------------------------------------------------
+// running histories
+
+fn empty_model(d: &Domain) -> Model {
+    vec![vec![]; d.keys.len()]
+}
+
+fn ret_str(r: &Ret) -> String {
+    match r {
+        Ret::Unit => "Ok(())".into(),
+        Ret::Bool(b) => format!("Ok({})", b),
+        Ret::Err(e) => format!("Err({})", e),
+        Ret::Panic(p) => format!("PANIC({})", vcore::util::trunc(p, 200)),
+    }
+}
+
+fn ret_fail(op: Op, d: &Domain, got: &Ret, want: &Ret) -> Fail {
+    let clause = match got {
+        Ret::Err(_) => format!("{}:err", op.kind()),
+        Ret::Panic(_) => format!("{}:panic", op.kind()),
+        _ => format!("{}:return", op.kind()),
+    };
+    (clause, format!("{} returned {}, the ordered map says {}", op.show(d), ret_str(got), ret_str(want)))
+}
+
+/// All checks on a live tree in a state the model describes. Returns the decoded shape.
+fn check_state(t: &Tree, fam: &Family, m: &Model, counters: &mut Counters) -> Result<Shape, Fail> {
+    let d = &fam.dom;
+    let s1 = t.snap();
+    check_queries(&t.idx, d, m, &fam.battery, "")?;
+    let s2 = t.snap();
+    if s1 != s2 {
+        return Err(("query-mutates-state".into(), "the page image or the allocator state changed while only lookup / multi_lookup / range_scan ran".into()));
+    }
+    // the persisted tree: root and height as BTreeIndex::load reads them from page 0
+    let loaded = Tree::attach(&s1).map_err(|e| ("load".to_string(), format!("BTreeIndex::load of the persisted pages failed: {}", e)))?;
+    let same_meta = loaded.idx.root_page_id() == t.idx.root_page_id() && loaded.idx.height() == t.idx.height() && loaded.idx.degree() == t.idx.degree();
+    if !same_meta {
+        counters.live_meta_differs += 1;
+    }
+    let shape = check_structure(&loaded.pm, loaded.idx.root_page_id(), loaded.idx.height())?;
+    check_content(&shape, d, m)?;
+    // same bytes, same root / height / degree: the reduced battery; otherwise the full one
+    let lb = if same_meta { &fam.reduced } else { &fam.battery };
+    check_queries(&loaded.idx, d, m, lb, "after BTreeIndex::load: ")?;
+    counters.queries += fam.battery.n_queries(d) + lb.n_queries(d);
+    counters.states_checked += 1;
+    Ok(shape)
+}
+
+#[derive(Default, Clone, Debug)]
+pub struct Counters {
+    pub states_checked: u64,
+    pub queries: u64,
+    pub live_meta_differs: u64,
+    pub events: BTreeMap<&'static str, u64>,
+    pub rets: BTreeMap<String, u64>,
+    pub max_height: usize,
+    pub max_leaves: usize,
+    pub max_internals: usize,
+    pub degrees: BTreeMap<usize, u64>,
+}
+
+impl Counters {
+    fn merge(&mut self, o: &Counters) {
+        self.states_checked += o.states_checked;
+        self.queries += o.queries;
+        self.live_meta_differs += o.live_meta_differs;
+        for (k, v) in &o.events {
+            *self.events.entry(k).or_default() += v;
+        }
+        for (k, v) in &o.rets {
+            *self.rets.entry(k.clone()).or_default() += v;
+        }
+        for (k, v) in &o.degrees {
+            *self.degrees.entry(*k).or_default() += v;
+        }
+        self.max_height = self.max_height.max(o.max_height);
+        self.max_leaves = self.max_leaves.max(o.max_leaves);
+        self.max_internals = self.max_internals.max(o.max_internals);
+    }
+    fn shape(&mut self, s: &Shape) {
+        self.max_height = self.max_height.max(s.height);
+        self.max_leaves = self.max_leaves.max(s.leaves.len());
+        self.max_internals = self.max_internals.max(s.internals.len());
+    }
+}
+
+#[derive(Clone)]
+struct Node {
+    snap: Snap,
+    model: Model,
+    start: usize,
+    hist: Vec<Op>,
+}
+
+#[derive(Clone, Debug)]
+struct Found {
+    start: usize,
+    hist: Vec<Op>,
+    fail: Fail,
+}
+
+/// key of a state up to page renaming: logical structure + number of free pages + model.
+/// Err: the persisted structure is not even decodable / well-formed (a violation; reported by the caller)
+fn canon_key(t: &Tree, s: &Snap, m: &Model) -> Result<u128, Fail> {
+    let loaded = Tree::attach(s).map_err(|e| ("load".to_string(), format!("BTreeIndex::load of the persisted pages failed: {}", e)))?;
+    let shape = check_structure(&loaded.pm, loaded.idx.root_page_id(), loaded.idx.height())?;
+    let mut txt = canonical_text(&shape);
+    txt.push_str(&format!("#free{}#live{}", s.free.len(), (t.idx.root_page_id() == loaded.idx.root_page_id() && t.idx.height() == loaded.idx.height()) as u8));
+    for l in m {
+        let mut l = l.clone();
+        l.sort_unstable();
+        txt.push_str(&format!("{:?}", l));
+    }
+    Ok(hash128(txt.as_bytes()))
+}
+
+fn state_key(t: &Tree, s: &Snap, m: &Model) -> u128 {
+    let mut b: Vec<u8> = Vec::with_capacity(s.packed.len() + 64);
+    b.extend_from_slice(&s.packed);
+    b.extend_from_slice(&(s.len as u64).to_le_bytes());
+    b.extend_from_slice(&s.next.to_le_bytes());
+    for f in &s.free {
+        b.extend_from_slice(&f.to_le_bytes());
+    }
+    b.push(0xfe);
+    b.extend_from_slice(&t.idx.root_page_id().to_le_bytes());
+    b.extend_from_slice(&(t.idx.height() as u64).to_le_bytes());
+    for l in m {
+        let mut l = l.clone();
+        l.sort_unstable();
+        b.push(0xff);
+        for r in l {
+            b.push(r as u8);
+        }
+    }
+    hash128(&b)
+}
+
+fn alphabet(fam: &Family, m: &Model) -> Vec<Op> {
+    let mut a = vec![];
+    for k in &fam.dom.op_keys {
+        for r in &fam.rids {
+            if m[*k].len() < fam.cap {
+                a.push(Op::Ins(*k as u16, *r));
+            }
+        }
+        a.push(Op::Del(*k as u16));
+        if fam.delspec {
+            for r in &fam.rids {
+                a.push(Op::DelSpec(*k as u16, *r));
+            }
+        }
+    }
+    a
+}
+
+/// Build a start state on one live tree, checking every intermediate state.
+/// Ok((tree, model)) or the failure with the number of recipe steps executed.
+fn build_start(fam: &Family, st: &Start, counters: &mut Counters) -> Result<(Tree, Model), (Vec<Op>, Fail)> {
+    let d = &fam.dom;
+    let mut m = empty_model(d);
+    match st {
+        Start::Empty | Start::Built(_) => {
+            let mut t = Tree::new_empty(&d.schema).map_err(|e| (vec![], ("new".to_string(), e)))?;
+            let mut done = vec![];
+            let mut pre = check_state(&t, fam, &m, counters).map_err(|f| (done.clone(), f))?;
+            counters.shape(&pre);
+            if let Start::Built(ops) = st {
+                for op in ops {
+                    let got = t.apply(d, *op);
+                    let want = model_apply(&mut m, *op);
+                    done.push(*op);
+                    if got != want {
+                        return Err((done, ret_fail(*op, d, &got, &want)));
+                    }
+                    let post = check_state(&t, fam, &m, counters).map_err(|f| (done.clone(), f))?;
+                    note_events(counters, &pre, &post, *op, d);
+                    pre = post;
+                }
+            }
+            *counters.degrees.entry(t.idx.degree()).or_default() += 1;
+            Ok((t, m))
+        }
+        Start::Bulk(entries) => {
+            let e: Vec<(Key, usize)> = entries.iter().map(|(k, r)| (d.keys[*k as usize].clone(), *r as usize)).collect();
+            for (k, r) in entries {
+                m[*k as usize].push(*r as usize);
+            }
+            let t = Tree::bulk(&d.schema, e).map_err(|(c, msg)| (vec![], (format!("bulk_load:{}", c), format!("bulk_load of {} sorted entries failed: {}", entries.len(), msg))))?;
+            let sh = check_state(&t, fam, &m, counters).map_err(|f| (vec![], f))?;
+            counters.shape(&sh);
+            *counters.degrees.entry(t.idx.degree()).or_default() += 1;
+            Ok((t, m))
+        }
+    }
+}
+
+fn note_events(c: &mut Counters, pre: &Shape, post: &Shape, op: Op, d: &Domain) {
+    let k = match op {
+        Op::Ins(k, _) | Op::Del(k) | Op::DelSpec(k, _) => k,
+    };
+    for e in events(pre, post, matches!(op, Op::Ins(..)), &d.keys[k as usize]) {
+        *c.events.entry(e).or_default() += 1;
+    }
+    c.shape(post);
+}
+
+#[derive(Default, Debug, Clone)]
+pub struct FamStats {
+    pub states: u64,
+    pub transitions: u64,
+    pub depth_completed: usize,
+    pub fixpoint: bool,
+    pub capped: bool,
+    pub per_depth: Vec<u64>,
+    pub starts: usize,
+    pub samples: Vec<String>,
+}
+
+struct Succ {
+    parent: usize,
+    op: Op,
+    snap: Snap,
+    model: Model,
+    key: u128,
+}
+
+fn explore(fam: &Family, rep: &Report) -> (FamStats, Counters, Vec<Found>) {
+    let t0 = Instant::now();
+    let max_secs = std::env::var("VERIF_MAX_SECS").ok().and_then(|s| s.parse::<f64>().ok()).unwrap_or(fam.max_secs);
+    let d = &fam.dom;
+    let mut stats = FamStats { starts: fam.starts.len(), ..Default::default() };
+    let mut counters = Counters::default();
+    let mut found: Vec<Found> = vec![];
+    let mut seen: HashSet<u128> = HashSet::new();
+    let mut frontier: Vec<Node> = vec![];
+
+    // start states (parallel, then merged in order)
+    let built: Vec<(Counters, Result<(Snap, Model, u128), (Vec<Op>, Fail)>)> = par_map(&fam.starts, |_, st| {
+        let mut c = Counters::default();
+        let r = build_start(fam, st, &mut c).map(|(t, m)| {
+            let s = t.snap();
+            let k = if fam.canonical { canon_key(&t, &s, &m).unwrap_or_else(|_| state_key(&t, &s, &m)) } else { state_key(&t, &s, &m) };
+            (s, m, k)
+        });
+        (c, r)
+    });
+    for (i, (c, r)) in built.into_iter().enumerate() {
+        counters.merge(&c);
+        match r {
+            Ok((snap, model, key)) => {
+                if seen.insert(key) {
+                    frontier.push(Node { snap, model, start: i, hist: vec![] });
+                }
+            }
+            Err((done, fail)) => {
+                // a failure while building: the history is the executed part of the recipe on the empty tree
+                let (start, hist) = match &fam.starts[i] {
+                    Start::Built(_) => (usize::MAX, done),
+                    _ => (i, vec![]),
+                };
+                found.push(Found { start, hist, fail });
+            }
+        }
+    }
+    stats.states = frontier.len() as u64;
+    stats.per_depth.push(stats.states);
+
+    const CHUNK: usize = 512;
+    for depth in 1..=fam.depth {
+        if frontier.is_empty() {
+            stats.fixpoint = true;
+            break;
+        }
+        let mut next: Vec<Node> = vec![];
+        let mut capped = false;
+        for chunk in frontier.chunks(CHUNK) {
+            if t0.elapsed().as_secs_f64() > max_secs {
+                capped = true;
+                break;
+            }
+            // phase 1: apply every enabled operation to a fresh copy of the state
+            let p1: Vec<(Vec<Succ>, Vec<Found>, u64, BTreeMap<String, u64>)> = par_map(chunk, |pi, node| {
+                let mut succs = vec![];
+                let mut fnd = vec![];
+                let mut trans = 0u64;
+                let mut rets: BTreeMap<String, u64> = BTreeMap::new();
+                for op in alphabet(fam, &node.model) {
+                    trans += 1;
+                    let mut t = match Tree::attach(&node.snap) {
+                        Ok(t) => t,
+                        Err(e) => {
+                            rep.machinery_error(format!("cannot re-attach a checked state: {}", e));
+                            continue;
+                        }
+                    };
+                    let got = t.apply(d, op);
+                    let mut m2 = node.model.clone();
+                    let want = model_apply(&mut m2, op);
+                    *rets.entry(format!("{}:{}", op.kind(), match &got { Ret::Unit => "ok", Ret::Bool(true) => "true", Ret::Bool(false) => "false", Ret::Err(_) => "err", Ret::Panic(_) => "panic" })).or_default() += 1;
+                    if got != want {
+                        let mut h = node.hist.clone();
+                        h.push(op);
+                        fnd.push(Found { start: node.start, hist: h, fail: ret_fail(op, d, &got, &want) });
+                        continue;
+                    }
+                    let snap = t.snap();
+                    let key = if fam.canonical {
+                        match canon_key(&t, &snap, &m2) {
+                            Ok(k) => k,
+                            Err(fail) => {
+                                let mut h = node.hist.clone();
+                                h.push(op);
+                                fnd.push(Found { start: node.start, hist: h, fail });
+                                continue;
+                            }
+                        }
+                    } else {
+                        state_key(&t, &snap, &m2)
+                    };
+                    succs.push(Succ { parent: pi, op, snap, model: m2, key });
+                }
+                (succs, fnd, trans, rets)
+            });
+            // phase 2: dedup in input order
+            let mut fresh: Vec<Succ> = vec![];
+            for (succs, fnd, trans, rets) in p1 {
+                stats.transitions += trans;
+                found.extend(fnd);
+                for (k, v) in rets {
+                    *counters.rets.entry(k).or_default() += v;
+                }
+                for s in succs {
+                    if seen.insert(s.key) {
+                        fresh.push(s);
+                    }
+                }
+            }
+            // phase 3: full checks of every new state (the operation is re-executed on a copy of the parent)
+            let p3: Vec<(Counters, Result<(), Fail>)> = par_map(&fresh, |_, s| {
+                let mut c = Counters::default();
+                let node = &chunk[s.parent];
+                let r = (|| -> Result<(), Fail> {
+                    let mut t = Tree::attach(&node.snap).map_err(|e| ("machinery".to_string(), e))?;
+                    let pre = check_structure(&t.pm, t.idx.root_page_id(), t.idx.height()).map_err(|f| ("machinery".to_string(), format!("parent state no longer passes: {:?}", f)))?;
+                    let _ = t.apply(d, s.op);
+                    let post = check_state(&t, fam, &s.model, &mut c)?;
+                    note_events(&mut c, &pre, &post, s.op, d);
+                    Ok(())
+                })();
+                (c, r)
+            });
+            for (s, (c, r)) in fresh.into_iter().zip(p3.into_iter()) {
+                counters.merge(&c);
+                let node = &chunk[s.parent];
+                let mut hist = node.hist.clone();
+                hist.push(s.op);
+                match r {
+                    Ok(()) => {
+                        if stats.samples.len() < 2 && hist.len() >= 2 {
+                            stats.samples.push(format!("[{}] {} ; {}", fam.name, start_label(fam, node.start), hist.iter().map(|o| o.show(d)).collect::<Vec<_>>().join(" ; ")));
+                        }
+                        next.push(Node { snap: s.snap, model: s.model, start: node.start, hist });
+                    }
+                    Err((c, msg)) if c == "machinery" => rep.machinery_error(msg),
+                    Err(fail) => found.push(Found { start: node.start, hist, fail }), // violating states are not expanded
+                }
+            }
+        }
+        stats.states += next.len() as u64;
+        stats.per_depth.push(next.len() as u64);
+        if capped {
+            stats.capped = true;
+            break;
+        }
+        stats.depth_completed = depth;
+        frontier = next;
+        if frontier.is_empty() {
+            stats.fixpoint = true;
+        }
+    }
+    if let Some(n) = frontier.last() {
+        if !n.hist.is_empty() {
+            stats.samples.push(format!("[{}] {} ; {}", fam.name, start_label(fam, n.start), n.hist.iter().map(|o| o.show(d)).collect::<Vec<_>>().join(" ; ")));
+        }
+    }
+    (stats, counters, found)
+}
+
+fn start_label(fam: &Family, i: usize) -> String {
+    if i == usize::MAX {
+        return "empty".into();
+    }
+    match &fam.starts[i] {
+        Start::Empty => "empty".into(),
+        Start::Built(ops) => format!("built by {} inserts ({} … {})", ops.len(), ops.first().map(|o| o.show(&fam.dom)).unwrap_or_default(), ops.last().map(|o| o.show(&fam.dom)).unwrap_or_default()),
+        Start::Bulk(e) => format!("bulk_load of {} entries over {} keys", e.len(), e.iter().map(|x| x.0).collect::<HashSet<_>>().len()),
+    }
+}
+
+// ------------------------------------------------------------------------------------------------
+// stateless guard: plain enumeration of all sequences on one continuous live tree (no re-attach, no dedup)
+
+fn guard_pass(fam: &Family, starts: &[Start], depth: usize, max_secs: f64) -> (u64, u64, bool, Counters, Vec<Found>) {
+    let d = &fam.dom;
+    let t0 = Instant::now();
+    // sequences of exactly `depth` alphabet *indices* over the maximal alphabet; disabled ops end the sequence
+    let mut max_alpha = vec![];
+    for k in &d.op_keys {
+        for r in &fam.rids {
+            max_alpha.push(Op::Ins(*k as u16, *r));
+        }
+        max_alpha.push(Op::Del(*k as u16));
+        if fam.delspec {
+            for r in &fam.rids {
+                max_alpha.push(Op::DelSpec(*k as u16, *r));
+            }
+        }
+    }
+    // first-op partitions are the parallel work items
+    let mut items: Vec<(usize, usize)> = vec![];
+    for si in 0..starts.len() {
+        for a in 0..max_alpha.len() {
+            items.push((si, a));
+        }
+    }
+    let res: Vec<(u64, u64, bool, Counters, Vec<Found>)> = par_map(&items, |_, (si, a0)| {
+        let mut c = Counters::default();
+        let mut found = vec![];
+        let mut nodes = 0u64;
+        let mut seqs = 0u64;
+        let mut capped = false;
+        // iterative DFS over suffixes; each node is re-created by replaying its path on a fresh live tree
+        let mut stack: Vec<Vec<usize>> = vec![vec![*a0]];
+        while let Some(path) = stack.pop() {
+            if t0.elapsed().as_secs_f64() > max_secs {
+                capped = true;
+                break;
+            }
+            // replay
+            let mut cc = Counters::default();
+            let built = {
+                let tmp = Family { name: fam.name, dom: d.clone(), battery: Battery { multi: vec![], ranges: vec![] }, reduced: Battery { multi: vec![], ranges: vec![] }, rids: fam.rids.clone(), cap: fam.cap, delspec: fam.delspec, canonical: false, starts: vec![], depth: 0, max_secs: 0.0 };
+                build_start(&tmp, &starts[*si], &mut cc)
+            };
+            let Ok((mut t, mut m)) = built else { continue };
+            let mut ok = true;
+            let mut ops: Vec<Op> = vec![];
+            for (i, ai) in path.iter().enumerate() {
+                let op = max_alpha[*ai];
+                if let Op::Ins(k, _) = op {
+                    if m[k as usize].len() >= fam.cap {
+                        ok = false;
+                        break;
+                    }
+                }
+                let got = t.apply(d, op);
+                let want = model_apply(&mut m, op);
+                ops.push(op);
+                if got != want {
+                    if i + 1 == path.len() {
+                        found.push(Found { start: *si, hist: ops.clone(), fail: ret_fail(op, d, &got, &want) });
+                    }
+                    ok = false;
+                    break;
+                }
+            }
+            if !ok {
+                continue;
+            }
+            nodes += 1;
+            // full check of the last state only (prefixes are nodes of their own)
+            match check_state(&t, fam, &m, &mut c) {
+                Ok(_) => {}
+                Err(fail) => {
+                    found.push(Found { start: *si, hist: ops.clone(), fail });
+                    continue;
+                }
+            }
+            if path.len() < depth {
+                for a in (0..max_alpha.len()).rev() {
+                    let mut p = path.clone();
+                    p.push(a);
+                    stack.push(p);
+                }
+            } else {
+                seqs += 1;
+            }
+        }
+        (nodes, seqs, capped, c, found)
+    });
+    let mut nodes = 0;
+    let mut seqs = 0;
+    let mut capped = false;
+    let mut c = Counters::default();
+    let mut found = vec![];
+    for (n, s, cp, cc, f) in res {
+        nodes += n;
+        seqs += s;
+        capped |= cp;
+        c.merge(&cc);
+        found.extend(f);
+    }
+    (nodes, seqs, capped, c, found)
+}
+
+// ------------------------------------------------------------------------------------------------
+// confirmation and replay
+
+/// Execute start + ops; `reattach` re-opens the tree from its page image before every operation (as
+/// the explorer does), otherwise one live tree is used throughout. Returns the first failure with the
+/// number of operations executed before it, and a log.
+fn run_history(fam: &Family, st: &Start, ops: &[Op], reattach: bool, log: &mut Vec<String>) -> Option<(usize, Fail)> {
+    let d = &fam.dom;
+    let mut c = Counters::default();
+    let (mut t, mut m) = match st {
+        Start::Built(recipe) => {
+            // the recipe is part of the history: run it step by step so that the failing step is named
+            let mut all = recipe.clone();
+            all.extend_from_slice(ops);
+            return run_history(fam, &Start::Empty, &all, reattach, log);
+        }
+        _ => match build_start(fam, st, &mut c) {
+            Ok(x) => x,
+            Err((_, f)) => {
+                log.push(format!("start state: FAIL {} — {}", f.0, f.1));
+                return Some((0, f));
+            }
+        },
+    };
+    log.push(format!("start state ({}): height {} root page {} — all checks pass", st.kind(), t.idx.height(), t.idx.root_page_id()));
+    for (i, op) in ops.iter().enumerate() {
+        if reattach {
+            t = match Tree::attach(&t.snap()) {
+                Ok(t) => t,
+                Err(e) => return Some((i, ("load".into(), e))),
+            };
+        }
+        let got = t.apply(d, *op);
+        let want = model_apply(&mut m, *op);
+        if got != want {
+            let f = ret_fail(*op, d, &got, &want);
+            log.push(format!("step {}: {} => {} — FAIL {}", i + 1, op.show(d), ret_str(&got), f.1));
+            return Some((i + 1, f));
+        }
+        match check_state(&t, fam, &m, &mut c) {
+            Ok(sh) => log.push(format!("step {}: {} => {} ; height {} leaves {:?} — all checks pass", i + 1, op.show(d), ret_str(&got), sh.height, sh.leaves.iter().map(|l| l.1).collect::<Vec<_>>())),
+            Err(f) => {
+                log.push(format!("step {}: {} => {} — FAIL {}: {}", i + 1, op.show(d), ret_str(&got), f.0, f.1));
+                return Some((i + 1, f));
+            }
+        }
+    }
+    None
+}
+
+fn signature(fam: &Family, st_kind: &str, hist: &[Op], clause: &str) -> Vec<(&'static str, String)> {
+    vec![
+        ("schema", fam.dom.name.to_string()),
+        ("start", st_kind.to_string()),
+        ("last_op", hist.last().map(|o| o.kind()).unwrap_or("none").to_string()),
+        ("clause", clause.to_string()),
+    ]
+}
+
+fn case_json(fam: &Family, thorough: bool, st: &Start, hist: &[Op], reattach: bool) -> Value {
+    json!({
+        "tier": if thorough { "thorough" } else { "quick" },
+        "family": fam.name,
+        "schema": fam.dom.name,
+        "keys": fam.dom.keys.iter().map(fmt_key).collect::<Vec<_>>(),
+        "start": st.to_json(),
+        "ops": hist.iter().map(|o| o.to_json()).collect::<Vec<_>>(),
+        "ops_text": hist.iter().map(|o| o.show(&fam.dom)).collect::<Vec<_>>(),
+        "reattach_before_every_op": reattach,
+    })
+}
+
+fn report_found(rep: &Report, fam: &Family, thorough: bool, mut found: Vec<Found>, reattach: bool) {
+    // shortest first, then by text: the witness kept per signature is the smallest
+    found.sort_by(|a, b| (a.hist.len(), &a.hist, a.start).cmp(&(b.hist.len(), &b.hist, b.start)));
+    let mut done: HashSet<String> = HashSet::new();
+    for f in found {
+        let st = if f.start == usize::MAX { Start::Empty } else { fam.starts.get(f.start).cloned().unwrap_or(Start::Empty) };
+        let pre = format!("pre{:?}", signature(fam, st.kind(), &f.hist, &f.fail.0));
+        if !done.insert(pre) {
+            // further cases of a signature are only counted
+            rep.total_failing_cases.fetch_add(1, std::sync::atomic::Ordering::Relaxed);
+            continue;
+        }
+        // re-execute from scratch twice; the re-execution decides which clause is reported (the explorer
+        // may have met another check first) and where the history ends
+        let mut l1 = vec![];
+        let mut l2 = vec![];
+        let r1 = run_history(fam, &st, &f.hist, reattach, &mut l1);
+        let r2 = run_history(fam, &st, &f.hist, reattach, &mut l2);
+        let (n, fail) = match (&r1, &r2) {
+            (Some((n1, f1)), Some((n2, f2))) if n1 == n2 && f1.0 == f2.0 => (*n1, f1.clone()),
+            _ => {
+                rep.machinery_error(format!("a failing case did not reproduce identically: found {:?}, re-executions {:?} / {:?}; case {}", f.fail, r1, r2, case_json(fam, thorough, &st, &f.hist, reattach)));
+                continue;
+            }
+        };
+        // n = operations executed including the failing one (recipe operations of a built start count)
+        let (st, hist): (Start, Vec<Op>) = match &st {
+            Start::Built(recipe) if n <= recipe.len() => (Start::Empty, recipe[..n].to_vec()),
+            Start::Built(recipe) => (st.clone(), f.hist[..(n - recipe.len()).min(f.hist.len())].to_vec()),
+            _ => (st.clone(), f.hist[..n.min(f.hist.len())].to_vec()),
+        };
+        let sig = signature(fam, st.kind(), &hist, &fail.0);
+        let sk = format!("{:?}", sig);
+        if !done.insert(sk) {
+            rep.total_failing_cases.fetch_add(1, std::sync::atomic::Ordering::Relaxed);
+            continue;
+        }
+        rep.violation(
+            &sig,
+            format!("[{}] {} ; {} — {}", fam.name, match &st { Start::Empty => "empty".to_string(), _ => start_label(fam, f.start) }, hist.iter().map(|o| o.show(&fam.dom)).collect::<Vec<_>>().join(" ; "), fail.1),
+            case_json(fam, thorough, &st, &hist, reattach),
+        );
+    }
+}
+
+fn guard_family() -> Result<Family, String> {
+    let gdom = dom_str("varchar1000", 6, false, 1000)?;
+    let gb = Battery::full(&gdom);
+    let gstarts: Vec<Start> = vec![Start::Empty, Start::Built(asc(&gdom, 5)), Start::Built(zigzag(&gdom, 6)), bulk_prefix(&gdom, 6, true)];
+    Ok(Family { name: "stateless_guard", reduced: gb.reduced(&gdom), battery: gb, rids: vec![0, 1], cap: 2, delspec: true, canonical: false, starts: gstarts, depth: 0, max_secs: 0.0, dom: gdom })
+}
+
+/// CPU seconds (user+system) consumed by this process so far
+pub fn cpu_secs() -> f64 {
+    let s = std::fs::read_to_string("/proc/self/stat").unwrap_or_default();
+    let rest = s.rsplit(')').next().unwrap_or("");
+    let f: Vec<&str> = rest.split_whitespace().collect();
+    let ticks: f64 = f.get(11).and_then(|x| x.parse::<f64>().ok()).unwrap_or(0.0) + f.get(12).and_then(|x| x.parse::<f64>().ok()).unwrap_or(0.0);
+    ticks / 100.0
+}
+
+pub fn run(tier: &str) -> i32 {
+    let mut rep = Report::new("C17", tier, "model_checking");
+    let thorough = tier == "thorough";
+    let fams = match families(thorough) {
+        Ok(f) => f,
+        Err(e) => {
+            rep.machinery_error(e);
+            return rep.finish();
+        }
+    };
+    let mut total_states = 0u64;
+    let mut total_trans = 0u64;
+    let mut exhaustive = true;
+    let mut fam_json = vec![];
+    let mut all = Counters::default();
+    let mut samples: Vec<String> = vec![];
+    let only = std::env::var("VERIF_C17_ONLY").ok();
+    for fam in &fams {
+        if let Some(o) = &only {
+            if o != fam.name {
+                continue;
+            }
+        }
+        let t0 = Instant::now();
+        let cpu0 = cpu_secs();
+        let (st, c, found) = explore(fam, &rep);
+        println!(
+            "C17 family {:<22} starts={} states={} transitions={} depth={}{}{} checked={} wall={:.1}s cpu={:.1}s failing={}",
+            fam.name,
+            st.starts,
+            st.states,
+            st.transitions,
+            st.depth_completed,
+            if st.fixpoint { " (fixpoint: the reachable state space is complete)" } else { "" },
+            if st.capped { " CAPPED" } else { "" },
+            c.states_checked,
+            t0.elapsed().as_secs_f64(),
+            cpu_secs() - cpu0,
+            found.len()
+        );
+        total_states += st.states;
+        total_trans += st.transitions;
+        exhaustive &= !st.capped;
+        all.merge(&c);
+        samples.extend(st.samples.iter().cloned());
+        fam_json.push(json!({
+            "family": fam.name, "states_merged_modulo_page_renaming": fam.canonical, "schema": fam.dom.name, "keys": fam.dom.op_keys.len(), "probe_only_keys": fam.dom.keys.len() - fam.dom.op_keys.len(),
+            "row_ids": fam.rids, "max_row_ids_per_key": fam.cap, "start_states": st.starts, "depth_bound": fam.depth,
+            "depth_completed": st.depth_completed, "fixpoint_reached": st.fixpoint, "capped": st.capped,
+            "states": st.states, "transitions": st.transitions, "states_per_depth": st.per_depth,
+            "queries_per_state": fam.battery.n_queries(&fam.dom) + fam.reduced.n_queries(&fam.dom), "wall_s": t0.elapsed().as_secs_f64(),
+        }));
+        report_found(&rep, fam, thorough, found, true);
+    }
+    // stateless guard on continuous live trees: 6 keys, 2 row ids
+    let gfam_owned = match guard_family() {
+        Ok(f) => f,
+        Err(e) => {
+            rep.machinery_error(e);
+            return rep.finish();
+        }
+    };
+    let gstarts = gfam_owned.starts.clone();
+    let gfam = &gfam_owned;
+    let gd = if thorough { 3 } else { 2 };
+    let t0 = Instant::now();
+    let (gn, gs, gcap, gc, gfound) = if only.is_some() { (0, 0, false, Counters::default(), vec![]) } else { guard_pass(gfam, &gstarts, gd, if thorough { 150.0 } else { 60.0 }) };
+    println!("C17 stateless guard (one live tree per sequence, no dedup): starts={} depth={} nodes={} sequences={} wall={:.1}s failing={}{}", gstarts.len(), gd, gn, gs, t0.elapsed().as_secs_f64(), gfound.len(), if gcap { " CAPPED" } else { "" });
+    report_found(&rep, gfam, thorough, gfound, false);
+    all.merge(&gc);
+    exhaustive &= !gcap;
+
+    println!("C17 structural events seen: {:?}", all.events);
+    println!("C17 operation outcomes: {:?}", all.rets);
+    println!("C17 max height {} max leaves {} max internal nodes {} degrees {:?}; live root/height differed from persisted metadata in {} states", all.max_height, all.max_leaves, all.max_internals, all.degrees, all.live_meta_differs);
+
+    rep.set("states", json!(total_states));
+    rep.set("transitions", json!(total_trans));
+    rep.set("traces_validated_against_impl", json!(total_trans));
+    rep.set("states_fully_checked", json!(all.states_checked));
+    rep.set("queries_compared_with_the_model", json!(all.queries));
+    rep.set("families", json!(fam_json));
+    rep.set("stateless_guard", json!({"starts": gstarts.len(), "depth": gd, "nodes": gn, "complete_sequences": gs, "capped": gcap}));
+    rep.set("exhaustive", json!(exhaustive));
+    rep.set("structural_events", json!(all.events));
+    let expected = ["leaf_split", "root_split", "internal_split", "leaf_borrow", "leaf_merge", "internal_borrow", "internal_merge", "root_collapse"];
+    let vac: Vec<&str> = expected.iter().copied().filter(|e| all.events.get(e).copied().unwrap_or(0) == 0).collect();
+    rep.set("vacuous_mechanisms", json!(vac));
+    rep.set("operation_outcomes", json!(all.rets));
+    rep.set("distinct_outcomes", json!(all.rets.len()));
+    rep.set("max_height", json!(all.max_height));
+    rep.set("max_leaves", json!(all.max_leaves));
+    rep.set("max_internal_nodes", json!(all.max_internals));
+    rep.set("degrees_of_start_trees", json!(all.degrees.iter().map(|(k, v)| (k.to_string(), *v)).collect::<BTreeMap<_, _>>()));
+    rep.set("live_metadata_differs_from_persisted", json!(all.live_meta_differs));
+    samples.truncate(8);
+    if samples.is_empty() {
+        samples.push("(no state beyond the start states)".into());
+    }
+    rep.set("samples", json!(samples));
+    rep.set(
+        "rule",
+        json!("level-synchronous BFS over all sequences of insert/delete/delete_specific of the family's alphabet from every start state; states merged on (page image, allocator state, live root/height, model); in every new state: operation return value, every lookup / multi_lookup / range_scan of the battery on the live tree and on BTreeIndex::load of the same pages against a reference multimap, decoded persisted pages checked for sorted keys, separator bounds, uniform leaf depth, complete leaf chain, no shared / free-and-reachable page, persisted content == model; a violating state is reported and not expanded"),
+    );
+    rep.assume("the explorer re-attaches a state with BTreeIndex::load over a copy of its page image and allocator state (hook H2); a stateless pass on one continuous live tree per sequence guards against artefacts of that");
+    rep.assume("row ids of one key are compared as a multiset; range_scan must deliver key groups in key order");
+    rep.finish()
+}
+
+pub fn replay(case: &Value) -> i32 {
+    let thorough = case["tier"].as_str() == Some("thorough");
+    let fams = match families(thorough) {
+        Ok(f) => f,
+        Err(e) => {
+            eprintln!("MACHINERY-ERROR {}", e);
+            return 2;
+        }
+    };
+    let name = case["family"].as_str().unwrap_or("");
+    let gf = guard_family().ok();
+    let fam = match fams.iter().find(|f| f.name == name).or_else(|| if name == "stateless_guard" { gf.as_ref() } else { None }) {
+        Some(f) => f,
+        None => {
+            eprintln!("MACHINERY-ERROR unknown family {}", name);
+            return 2;
+        }
+    };
+    let Some(st) = Start::from_json(&case["start"]) else {
+        eprintln!("MACHINERY-ERROR bad start");
+        return 2;
+    };
+    let ops: Vec<Op> = case["ops"].as_array().map(|a| a.iter().filter_map(Op::from_json).collect()).unwrap_or_default();
+    let mut rc = 0;
+    for reattach in [case["reattach_before_every_op"].as_bool().unwrap_or(true), false] {
+        println!("-- {} ", if reattach { "tree re-opened with BTreeIndex::load before every operation (explorer mode)" } else { "one live tree for the whole sequence" });
+        let mut log = vec![];
+        let r = run_history(fam, &st, &ops, reattach, &mut log);
+        for l in &log {
+            println!("{}", l);
+        }
+        match r {
+            Some((_, f)) => {
+                println!("VIOLATED clause {}: {}", f.0, f.1);
+                rc = 1;
+            }
+            None => println!("no violation"),
+        }
+    }
+    rc
 }
